@@ -2,6 +2,7 @@ package main
 
 import (
 	"fmt"
+	"os"
 	"go/token"
 	"go/types"
 	"sort"
@@ -92,6 +93,29 @@ func (vc *FuncVC) genOnce() {
 	for i, p := range fn.Params {
 		f.params[p.Name()] = TV{args[i], p.Type()}
 	}
+	if vc.ifaceRecv != nil && len(fn.Params) > 0 {
+		// checking an implementation against the interface method's contract:
+		// `recv` is the receiver as an interface value; parameters by the
+		// interface method's names are bound positionally in run()
+		rp := fn.Params[0]
+		tag := fmt.Sprint(vc.eng.typeTag(vc.ifaceImpl))
+		if types.Identical(rp.Type(), vc.ifaceImpl) {
+			switch rp.Type().Underlying().(type) {
+			case *types.Pointer, *types.Map, *types.Chan, *types.Signature:
+				f.params["recv"] = TV{S("mk-iface", tag, args[0]), vc.ifaceRecv}
+				vc.assume(Not(S("=", args[0], "0")))
+			default:
+				box := vc.fresh("recvbox", "Int")
+				vc.assume(S("<", "0", box))
+				f.params["recv"] = TV{S("mk-iface", tag, box), vc.ifaceRecv}
+			}
+		} else {
+			// value-receiver method reached through a pointer in the interface
+			pp := vc.fresh("recvptr", "Int")
+			vc.assume(S("<", "0", pp))
+			f.params["recv"] = TV{S("mk-iface", tag, pp), vc.ifaceRecv}
+		}
+	}
 	if spec != nil {
 		env := f.baseEnv(entry)
 		fvLookup := env.lookup
@@ -162,6 +186,12 @@ func (vc *FuncVC) genOnce() {
 	f.curReach = "true"
 	for i, en := range spec.Ensures {
 		if len(ensGoals[i]) == 0 {
+			continue
+		}
+		if os.Getenv("GOVC_SPLIT_RETS") != "" {
+			for j, g := range ensGoals[i] {
+				f.oblige("ensures", fmt.Sprintf("%s@ret%d", clauseName(en, "ensures", i), j+1), g, en.Text, token.NoPos)
+			}
 			continue
 		}
 		f.oblige("ensures", clauseName(en, "ensures", i), And(ensGoals[i]...), en.Text, token.NoPos)
